@@ -357,9 +357,9 @@ func main() {
 	encodeDirection(depth, dl.Add(30*time.Second))
 	catalogue()
 	if rep.Thorough() {
-		histories(5)
+		histories(5, 4)
 	} else {
-		histories(4)
+		histories(4, 3)
 	}
 	rep.Extra("nodes_full_alphabet", nFull)
 	rep.Extra("nodes_reduced_alphabet", nRed)
